@@ -16,7 +16,7 @@ META = {
              "d 2-4, cycles 0-8, full and simplified; multi-round experiment circuits); distinct by structural hash; non-trivial = nesting depth >= 2"),
     "assumptions": ["for generated programs only the multiset clause is asserted (the statement promises order/schedule only for library circuits)"],
     "floors": {
-        "quick": {"flatten_calls": 2500, "second_flatten_checks": 2500, "library_flatten_checks": 50, "library_unobserved_flatten_checks": 50, "simplified_zero_cycle_inputs": 8, "duration_read_before_first_listing": 15, "leaves_compared": 30000, "deep_flatten_depth": 1300},
+        "quick": {"flatten_calls": 2500, "second_flatten_checks": 2500, "library_flatten_checks": 50, "library_unobserved_flatten_checks": 50, "simplified_zero_cycle_inputs": 8, "duration_read_before_first_listing": 15, "schedule_read_under_other_override": 10, "leaves_compared": 30000, "deep_flatten_depth": 1300},
         "thorough": {"flatten_calls": 30000, "second_flatten_checks": 30000, "library_flatten_checks": 150},
     },
 }
@@ -117,6 +117,11 @@ def check_library(inp: Dict[str, Any], acc: Acc):
             # a timing read BEFORE the operations are listed for the first time (fills the start-time memo early)
             acc.count("duration_read_before_first_listing")
             float(circuit.duration)
+        if inp.get("read_under_other_override"):
+            # the schedule is read once under OTHER global settings (a nested temporary override) and the override is left again
+            acc.count("schedule_read_under_other_override")
+            with libgen.override(inp["read_under_other_override"]):
+                [(o.start_time, o.end_time) for o in circuit.operations]
         a = lib_snapshot(circuit)
         if a["raw"] != a["shadow"]:
             acc.finding("stale-memo/before-flatten", "times reported for a modifier-applied library circuit differ from the memo-free evaluation", case, None)
@@ -222,6 +227,8 @@ def run_shard(shard: Dict[str, Any]) -> Acc:
                 inp["ancilla_state"] = None
             inp["glob"] = libgen.gen_global_settings(rng, default=rng.random() < 0.5)
             inp["duration_read_first"] = rng.random() < 0.5
+            if rng.random() < 0.4:
+                inp["read_under_other_override"] = libgen.gen_global_settings(rng)
             acc.hist("class", "library/" + ("multi_round" if inp.get("multi_round") else inp["constructor"]))
             acc.case(bp.phash(inp), True, sample=inp if i < 3 else None)
             common.guarded(acc, check_library, inp, acc, case={"library": inp})
